@@ -288,6 +288,90 @@ Proof.
 Qed.
 Print Assumptions C09_accepted_same_document.
 
+(* ---- the same at the level of the syntax tree ParseFile returns ---------------------------------- *)
+(* the tree is fragmentsToFile of the fragments (comments are dropped, blocks nest); its position-free
+   reading uses doc_of for every header, assignment and description *)
+Inductive tdoc := TBlock (h : frag_doc) (body : list tdoc) | TLeaf (d : frag_doc).
+Fixpoint stmt_doc (s : stmt) : tdoc :=
+  match s with
+  | SBlock h body => TBlock (doc_of (FHeader h)) (map stmt_doc body)
+  | SAssign a => TLeaf (doc_of (FAssign a))
+  | SDesc d => TLeaf (doc_of (FDesc d))
+  end.
+
+(* fragmentsToFile on documents *)
+Fixpoint d_loop (ds : list frag_doc) (cur : list tdoc) (stack : list (frag_doc * list tdoc))
+  : list tdoc * list (frag_doc * list tdoc) :=
+  match ds with
+  | [] => (cur, stack)
+  | d :: r =>
+    match d with
+    | DHeader _ _ _ _ true _ => d_loop r [] ((d, cur) :: stack)
+    | DHeader _ _ _ _ false _ => d_loop r (cur ++ [TBlock d []]) stack
+    | DAssign _ _ _ _ | DDesc _ => d_loop r (cur ++ [TLeaf d]) stack
+    | DComment _ => d_loop r cur stack
+    | DClose => match stack with
+                | [] => d_loop r cur stack
+                | (h, parent) :: st => d_loop r (parent ++ [TBlock h cur]) st
+                end
+    end
+  end.
+Fixpoint d_unwind (cur : list tdoc) (stack : list (frag_doc * list tdoc)) : list tdoc :=
+  match stack with
+  | [] => cur
+  | (h, parent) :: st => d_unwind (parent ++ [TBlock h cur]) st
+  end.
+Definition stack_doc (stack : list (header * list stmt)) : list (frag_doc * list tdoc) :=
+  map (fun hp => (doc_of (FHeader (fst hp)), map stmt_doc (snd hp))) stack.
+
+Lemma to_file_loop_doc : forall fs cur stack errs,
+  d_loop (map doc_of fs) (map stmt_doc cur) (stack_doc stack) =
+  (map stmt_doc (fst (fst (to_file_loop fs cur stack errs))), stack_doc (snd (fst (to_file_loop fs cur stack errs)))).
+Proof.
+  induction fs as [|f r IH]; intros cur stack errs; [reflexivity|].
+  destruct f as [h|a|d|t|t]; cbn [map to_file_loop].
+  - cbn [doc_of d_loop]. destruct (hopen h) eqn:Eo.
+    + rewrite <- (IH [] ((h, cur) :: stack) errs). unfold stack_doc. cbn [map fst snd doc_of]. rewrite Eo. reflexivity.
+    + rewrite <- (IH (cur ++ [SBlock h []]) stack errs). rewrite map_app. cbn [map stmt_doc doc_of]. rewrite Eo. reflexivity.
+  - cbn [doc_of d_loop]. rewrite <- (IH (cur ++ [SAssign a]) stack errs). rewrite map_app. reflexivity.
+  - cbn [doc_of d_loop]. rewrite <- (IH (cur ++ [SDesc d]) stack errs). rewrite map_app. reflexivity.
+  - cbn [doc_of d_loop]. apply IH.
+  - cbn [doc_of d_loop]. destruct stack as [|[h parent] st]; cbn [stack_doc map fst snd].
+    + apply (IH cur [] _).
+    + rewrite <- (IH (close_level h cur parent) st errs). unfold close_level. rewrite map_app. reflexivity.
+Qed.
+
+Lemma unwind_doc : forall stack cur, map stmt_doc (unwind cur stack) = d_unwind (map stmt_doc cur) (stack_doc stack).
+Proof.
+  induction stack as [|[h parent] st IH]; intros cur; [reflexivity|].
+  cbn [unwind stack_doc map fst snd d_unwind]. rewrite IH. unfold close_level. rewrite map_app. reflexivity.
+Qed.
+
+Lemma to_file_doc fs fs' : map doc_of fs' = map doc_of fs ->
+  map stmt_doc (fst (fragments_to_file fs')) = map stmt_doc (fst (fragments_to_file fs)).
+Proof.
+  intros E. unfold fragments_to_file.
+  pose proof (to_file_loop_doc fs [] [] []) as H1. pose proof (to_file_loop_doc fs' [] [] []) as H2. rewrite E in H2.
+  destruct (to_file_loop fs [] [] []) as [[c1 s1] e1]. destruct (to_file_loop fs' [] [] []) as [[c2 s2] e2].
+  cbn [fst snd] in *. rewrite !unwind_doc. rewrite H1 in H2. injection H2 as <- <-. reflexivity.
+Qed.
+
+(* the tree ParseFile returns for the formatter's output is, position-free, the tree of the input *)
+Theorem C09_same_tree : forall data body, parse_runes true data = Ok (mkP (Some body) []) ->
+  exists out body', fmt_runes data = Ok out /\ parse_runes true out = Ok (mkP (Some body') []) /\
+                    map stmt_doc body' = map stmt_doc body.
+Proof.
+  intros data body Hp. assert (Ha : accepted data) by (exists body; exact Hp).
+  destruct (C09_accepted_same_document data Ha) as (out & fs & fs' & Hf & [body' Hp'] & Hc & Hc' & Hd).
+  exists out, body'. split; [exact Hf|]. split; [exact Hp'|].
+  assert (Hb : forall d b l, collect_fragments d = Ok l -> parse_runes true d = Ok (mkP (Some b) []) -> b = fst (fragments_to_file l)).
+  { intros d b l. unfold collect_fragments, parse_runes. destruct (all_tokens true d); try discriminate.
+    destruct (walk_fragments true toks) as [l0 ds|p|]; try discriminate. destruct ds; [|discriminate].
+    intros [= <-]. destruct (fragments_to_file l0) as [b0 e0]. intros [= <- _]. reflexivity. }
+  rewrite (Hb data body fs Hc Hp), (Hb out body' fs' Hc' Hp'). apply to_file_doc. exact Hd.
+Qed.
+Print Assumptions C09_same_tree.
+
 (* formatting twice changes nothing: whatever Fmt returns is a fixed point of Fmt.  The fragments read
    back have the same documents, the text of a line is a function of the document, the re-flow is a
    fixed point, and a fragment read back starts one line after the previous one ended, or two when Fmt
